@@ -511,6 +511,74 @@ func c17(c *Ctx) {
 				"a session is removed from the session table without having gone through deleteSessionLocked (nick and memberships would dangle), or a live session is removed")
 		}
 	}
+	// MaybeDeleteSession's sweep covers every role that can end somebody else's session
+	if mds := c.MustFunc("ircserver.(*IRCServer).MaybeDeleteSession"); mds != nil {
+		f := c.irc()
+		needOper, needServer := false, false
+		for _, fi := range c.P.FuncsIn("ircserver") {
+			if fi.Body() == nil {
+				continue
+			}
+			sp := f.sessionParam(fi)
+			for _, dc := range callsIn(fi, func(fn *types.Func, _ *ast.CallExpr) bool { return fn == dsl.Obj }) {
+				if len(dc.Args) == 0 {
+					continue
+				}
+				if id, ok := ast.Unparen(dc.Args[0]).(*ast.Ident); ok && sp != nil && astx.Obj(fi.Info(), id) == sp {
+					continue // ends the acting session itself
+				}
+				if f.CReach[fi] {
+					needOper = true
+				}
+				if f.SReach[fi] {
+					needServer = true
+				}
+			}
+		}
+		info := mds.Info()
+		g := c.Graph(mds)
+		// the sweep: a range over i.sessions deleting entries marked deleted
+		var sweep *ast.RangeStmt
+		ast.Inspect(mds.Body(), func(n ast.Node) bool {
+			if rs, ok := n.(*ast.RangeStmt); ok {
+				if se, ok := ast.Unparen(rs.X).(*ast.SelectorExpr); ok && astx.FieldSel(info, se) == sessions {
+					sweep = rs
+				}
+			}
+			return true
+		})
+		if sweep == nil {
+			r.Fail("C17.Y4", mds.Name(), "sweep over all sessions", c.P.Pos(mds.Node().Pos()), "MaybeDeleteSession has no sweep over all sessions: sessions ended by somebody else (KILL, services) are never removed")
+		} else {
+			v := g.VertexOf(sweep.X)
+			hasOper, hasServer, guarded := false, false, false
+			for _, cl := range c.clausesAt(mds, g, v) {
+				allRole := len(cl) > 0
+				o, s2 := false, false
+				for _, l := range cl {
+					se, ok := ast.Unparen(l.E).(*ast.SelectorExpr)
+					if !ok || !l.Pos {
+						allRole = false
+						break
+					}
+					switch se.Sel.Name {
+					case "Operator":
+						o = true
+					case "Server":
+						s2 = true
+					default:
+						allRole = false
+					}
+				}
+				if allRole {
+					guarded, hasOper, hasServer = true, o, s2
+				}
+			}
+			okCover := !guarded || ((!needOper || hasOper) && (!needServer || hasServer))
+			r.Check(okCover, "C17.Y4", mds.Name(), "sweep runs for every role that can end another session", c.P.Pos(sweep.Pos()), "guard covers s.Operator (KILL) and s.Server (services)",
+				"MaybeDeleteSession sweeps sessions marked deleted only for some of the roles that can end somebody else's session: a session killed by the uncovered role stays in the session table, keeps its secret valid and is written into snapshots")
+		}
+	}
 	// who ends sessions: listed for evidence
 	var enders []string
 	for _, fi := range c.P.AllFuncs {
